@@ -26,6 +26,21 @@ pub fn ref_ttl(obs: &Ttl, sig: &Ttl) -> Option<Option<u32>> {
         (Ttl::Value(t), Ttl::Value(n)) => Some(Some(if t == n { 0 } else { 2 })),
         // `nnn-`: random TTLs up to the maximum nnn; a larger observed TTL cannot be an instance (decisive)
         (Ttl::Distance(t, _), Ttl::Bad(n)) | (Ttl::Value(t), Ttl::Bad(n)) => Some(if t <= n { Some(0) } else { None }),
+        // forms the packet extractor never produces / the bundled database never holds, but which the public types
+        // allow: same-form pairs and pairs that are plain numbers on both sides are "of comparable form"
+        (Ttl::Guess(a), Ttl::Guess(b)) | (Ttl::Bad(a), Ttl::Bad(b)) | (Ttl::Guess(a), Ttl::Value(b)) | (Ttl::Value(a), Ttl::Guess(b)) => Some(Some(if a == b { 0 } else { 2 })),
+        (Ttl::Distance(a1, a2), Ttl::Distance(b1, b2)) => {
+            if *a1 as u16 + *a2 as u16 > 255 || *b1 as u16 + *b2 as u16 > 255 {
+                return None;
+            }
+            Some(Some(if (a1, a2) == (b1, b2) { 0 } else { 2 }))
+        }
+        (Ttl::Value(a), Ttl::Distance(b1, b2)) => {
+            if *b1 as u16 + *b2 as u16 > 255 {
+                return None;
+            }
+            Some(Some(if *a as u16 == *b1 as u16 + *b2 as u16 { 0 } else { 2 }))
+        }
         _ => None,
     }
 }
@@ -117,6 +132,36 @@ fn check_ttl(r: &mut Report) {
                 dev_comp(r, "ttl-value-vs-value", format!("observed {obs} vs signature {sig}: got {got:?}"), json!({"obs": obs.to_string(), "sig": sig.to_string()}));
             }
             r.outcome(&("ttl", got));
+        }
+    }
+    // the remaining pairs of forms, whole domains
+    let mut one = |r: &mut Report, obs: Ttl, sig: Ttl| {
+        let Some(exp) = ref_ttl(&obs, &sig) else { return };
+        let got = obs.distance_ttl(&sig);
+        r.exec(1);
+        if got != exp {
+            let form = |t: &Ttl| match t {
+                Ttl::Value(_) => "value",
+                Ttl::Distance(..) => "distance",
+                Ttl::Guess(_) => "guess",
+                Ttl::Bad(_) => "random",
+            };
+            dev_comp(r, &format!("ttl-{}-vs-{}", form(&obs), form(&sig)), format!("observed {obs} vs signature {sig}: expected {exp:?} got {got:?}"), json!({"obs": obs.to_string(), "sig": sig.to_string()}));
+        }
+        r.outcome(&("ttl-forms", std::mem::discriminant(&obs), std::mem::discriminant(&sig), got));
+    };
+    for a in 0..=255u8 {
+        for b in 0..=255u8 {
+            one(r, Ttl::Guess(a), Ttl::Guess(b));
+            one(r, Ttl::Bad(a), Ttl::Bad(b));
+            one(r, Ttl::Guess(a), Ttl::Value(b));
+            one(r, Ttl::Value(a), Ttl::Guess(b));
+            for d in 0..=30u8 {
+                one(r, Ttl::Value(a), Ttl::Distance(b, d));
+            }
+            for (d1, d2) in [(0u8, 0u8), (0, 1), (1, 0), (7, 7), (7, 8), (30, 30)] {
+                one(r, Ttl::Distance(a, d1), Ttl::Distance(b, d2));
+            }
         }
     }
 }
